@@ -876,7 +876,7 @@ func checkNotificationLevels(senderLevel int64, oldPowerLevels, newPowerLevels P
 // checkPowerLevelEventV3 is V2 with privileged creators, and checking that the creators don't appear in the PL users map
 func checkPowerLevelEventV3(sender string, createEvent PDU, oldPowerLevels, newPowerLevels PowerLevelContent) error {
 	var content CreateContent
-	if err := json.Unmarshal(createEvent.Content(), &content); err != nil {
+	if err := json.Unmarshal(exactMembersOnly(createEvent.Content(), &content), &content); err != nil {
 		return errorf("checkPowerLevelEventV3 unparseable create event content: %s", err.Error())
 	}
 	creators := []string{string(createEvent.SenderID())}
